@@ -452,6 +452,73 @@ func (c *Ctx) onceInitFuncs() map[*types.Func]bool {
 	return out
 }
 
+// onceOnlyFuncs: the functions handed to sync.Once.Do by name, and every unexported function each of whose uses
+// is a call made inside a function literal handed to Once.Do or inside another such function: what they write is
+// written once, under the Once.
+func (c *Ctx) onceOnlyFuncs() map[*types.Func]bool {
+	out := c.onceInitFuncs()
+	lits := c.onceLiterals()
+	inLit := func(p token.Pos) bool {
+		for _, fl := range lits {
+			if fl.Pos() <= p && p <= fl.End() {
+				return true
+			}
+		}
+		return false
+	}
+	type use struct {
+		in     *types.Func
+		pos    token.Pos
+		called bool
+	}
+	uses := map[*types.Func][]use{}
+	for _, fd := range c.allFuncDecls() {
+		if fd.Body == nil {
+			continue
+		}
+		in, _ := c.Info.Defs[fd.Name].(*types.Func)
+		calledIdents := map[*ast.Ident]bool{}
+		ast.Inspect(fd.Body, func(n ast.Node) bool {
+			if call, ok := n.(*ast.CallExpr); ok {
+				switch f := unparen(call.Fun).(type) {
+				case *ast.Ident:
+					calledIdents[f] = true
+				case *ast.SelectorExpr:
+					calledIdents[f.Sel] = true
+				}
+			}
+			return true
+		})
+		ast.Inspect(fd.Body, func(n ast.Node) bool {
+			if id, ok := n.(*ast.Ident); ok {
+				if g, ok := c.Info.Uses[id].(*types.Func); ok && g.Pkg() == c.Types {
+					uses[g] = append(uses[g], use{in, id.Pos(), calledIdents[id]})
+				}
+			}
+			return true
+		})
+	}
+	for changed := true; changed; {
+		changed = false
+		for g, us := range uses {
+			if out[g] || g.Exported() || len(us) == 0 {
+				continue
+			}
+			all := true
+			for _, u := range us {
+				if !u.called || !(inLit(u.pos) || out[u.in]) {
+					all = false
+				}
+			}
+			if all {
+				out[g] = true
+				changed = true
+			}
+		}
+	}
+	return out
+}
+
 // initOnlyFuncs: init functions and functions all of whose callers are init-only.
 func (c *Ctx) initOnlyFuncs() map[string]bool {
 	callers := map[*types.Func][]string{}
@@ -522,6 +589,7 @@ func ruleGlobals(c *Ctx) {
 	}
 	onceFns := c.onceInitFuncs()
 	initOnly := c.initOnlyFuncs()
+	onceOnly := c.onceOnlyFuncs()
 	writers := map[*types.Var][]string{}
 	for _, fd := range c.allFuncDecls() {
 		if fd.Body == nil {
@@ -613,11 +681,17 @@ func ruleGlobals(c *Ctx) {
 		case v.Name() == "specLogger":
 			ok := true
 			for _, w := range ws {
-				if !initOnly[w] {
+				underOnce := w == onceLiteralWriter
+				for f := range onceOnly {
+					if funcDisplay(f) == w {
+						underOnce = true
+					}
+				}
+				if !initOnly[w] && !underOnce {
 					ok = false
 				}
 			}
-			c.ob(rule, key, v.Pos(), ok, fmt.Sprintf("logger written by %v outside package initialisation", ws))
+			c.ob(rule, key, v.Pos(), ok, fmt.Sprintf("logger written by %v outside package initialisation (and not under a sync.Once)", ws))
 		default:
 			c.ob(rule, key, v.Pos(), len(ws) == 0, fmt.Sprintf("package-level variable written at run time by %v: one call can influence the next", ws))
 		}
@@ -809,7 +883,36 @@ func ruleGlobals(c *Ctx) {
 			})
 		}
 		rs := sortedKeys(readers)
-		ok := len(rs) == 1 && c.buildsResolverContext(rs[0])
+		// the functions that run as part of building a per-call resolver context: the builder, and what it calls
+		during := map[string]bool{}
+		for _, f := range c.pkgFuncs() {
+			fd := c.decl(f)
+			if fd == nil || !c.buildsResolverContext(c.funcName(fd)) {
+				continue
+			}
+			during[c.funcName(fd)] = true
+			seen := map[*types.Func]bool{}
+			var walk func(g *types.Func)
+			walk = func(g *types.Func) {
+				if seen[g] {
+					return
+				}
+				seen[g] = true
+				if gd := c.decl(g); gd != nil && gd.Name.Name != "init" {
+					during[c.funcName(gd)] = true
+				}
+				for _, h := range c.staticCallees(g) {
+					walk(h)
+				}
+			}
+			walk(f)
+		}
+		ok := len(rs) > 0
+		for _, r := range rs {
+			if !during[r] {
+				ok = false
+			}
+		}
 		c.ob(rule, "PathLoader:read-at-context-creation", loaderVar.Pos(), ok, fmt.Sprintf("the default loader is read in %v; it must be read only where a per-call resolver context is built (read at call time)", rs))
 	} else {
 		c.ob(rule, "PathLoader", token.NoPos, false, "exported default loader variable not found")
